@@ -1322,7 +1322,8 @@ class _AlwaysSortable(object):
     __slots__ = ('value', )
 
     def __init__(self, value):
-        self.value = value
+        # Sort a commented key by the key itself.
+        self.value = unwrap_comments(value)[0]
 
     def sortable_value(self):
         return (str(type(self)), id(self))
